@@ -140,7 +140,9 @@ pub struct PoolImpl {
     /// Keeps track of which slots are finalized.
     finality_tracker: FinalityTracker,
     /// Keeps track of safe-to-notar blocks waiting for a parent certificate.
-    s2n_waiting_parent_cert: BTreeMap<BlockId, BlockId>,
+    ///
+    /// Several blocks (in different slots) can be waiting for the same parent.
+    s2n_waiting_parent_cert: BTreeMap<BlockId, Vec<BlockId>>,
 
     /// Information about all active validators.
     epoch_info: Arc<ValidatorEpochInfo>,
@@ -201,18 +203,8 @@ impl PoolImpl {
                     self.handle_finalization(finalization_event).await;
                 }
 
-                // potentially notify child waiting for safe-to-notar
-                if let Some((child_slot, child_hash)) =
-                    self.s2n_waiting_parent_cert.remove(&block_id)
-                    && let Some(output) = self
-                        .slot_state(child_slot)
-                        .notify_parent_certified(child_hash)
-                {
-                    match output {
-                        Either::Left(event) => self.send_votor_event(event).await,
-                        Either::Right((slot, hash)) => self.send_repair((slot, hash)).await,
-                    }
-                }
+                // potentially notify children waiting for safe-to-notar
+                self.notify_waiting_children(&block_id).await;
 
                 // add block to parent-ready tracker, send any new parents to Votor.
                 let new_parents_ready = self.parent_ready_tracker.mark_notar_fallback(&block_id);
@@ -242,6 +234,27 @@ impl PoolImpl {
         // send to votor for broadcasting
         let event = PoolEvent::CertCreated(cert);
         self.send_votor_event(event).await;
+    }
+
+    /// Notifies all blocks waiting for a certificate of their parent `block_id`.
+    ///
+    /// Sends any resulting safe-to-notar events to Votor and repair requests to the repair loop.
+    async fn notify_waiting_children(&mut self, block_id: &BlockId) {
+        let Some(children) = self.s2n_waiting_parent_cert.remove(block_id) else {
+            return;
+        };
+        for (child_slot, child_hash) in children {
+            let Some(output) = self
+                .slot_state(child_slot)
+                .notify_parent_certified(child_hash)
+            else {
+                continue;
+            };
+            match output {
+                Either::Left(event) => self.send_votor_event(event).await,
+                Either::Right((slot, hash)) => self.send_repair((slot, hash)).await,
+            }
+        }
     }
 
     /// Mutably accesses the [`SlotState`] for the given `slot`.
@@ -536,7 +549,10 @@ impl Pool for PoolImpl {
             }
             return;
         }
-        self.s2n_waiting_parent_cert.insert(parent_id, block_id);
+        self.s2n_waiting_parent_cert
+            .entry(parent_id)
+            .or_default()
+            .push(block_id);
     }
 
     /// Triggers a recovery from a standstill.
